@@ -69,7 +69,14 @@ func caseRand(seed int64, kind string, idx int) *rand.Rand {
 type msgInfo struct {
 	id uint32
 	n  int
+	// back: the message was appended after an explicit index reset (SetAppendedSeq) that moved the append position
+	// BACKWARDS onto an earlier index page than the one the writer stood on, at a sequence of such an earlier page
+	// (1 = the writer went on in the same process, 2 = a close + reopen lay between the reset and the append).
+	back uint8
 }
+
+// indexItemsPerPage: sequences per index page of the queue (pkg/queue: indexItemsPerPage = 1024 * 256).
+const indexItemsPerPage = 1024 * 256
 
 type mGroup struct {
 	name     string
@@ -103,7 +110,14 @@ type hist struct {
 	appended int64
 	qack     int64
 	msgs     map[int64]msgInfo
-	groups   map[string]*mGroup
+	// old: what was stored at a sequence before the last index reset that dropped it (to name stale reads)
+	old    map[int64]msgInfo
+	groups map[string]*mGroup
+	// backActive: the last index reset moved the append position backwards onto an earlier index page; sequences
+	// on index pages < backFrom that are appended from now on are marked (msgInfo.back).
+	backActive   bool
+	backReopened bool
+	backFrom     int64
 	nextID   uint32
 
 	prevQack  int64 // real queue ack before the operation
@@ -367,7 +381,7 @@ func (h *hist) checkReadable(kind string, from, to int64) {
 	if to < hi {
 		hi = to
 	}
-	n := 0
+	n, nb := 0, 0
 	for seq := lo; seq <= hi; seq++ {
 		m, ok := h.msgs[seq]
 		if !ok {
@@ -376,15 +390,52 @@ func (h *hist) checkReadable(kind string, from, to int64) {
 		n++
 		data, err := q.Get(seq)
 		if err != nil {
-			h.violate("C06/unacked-message-unreadable/"+errKind(err), "Get(%d) fails: %v (queue ack %d, smallest ack of the existing groups bound %d, appended %d)", seq, err, q.AcknowledgedSeq(), l, app)
+			cl := "C06/unacked-message-unreadable/" + errKind(err)
+			if m.back != 0 {
+				// appended after an index reset that went back across an index page boundary
+				cl = "C06/unacked-message-unreadable/appended-after-backward-index-reset/" + errKind(err)
+			}
+			h.violate(cl, "Get(%d) fails: %v (queue ack %d, smallest ack of the existing groups bound %d, appended %d%s)", seq, err, q.AcknowledgedSeq(), l, app, h.backNote(m))
 			return
 		}
 		if diff := checkPayload(data, m.id, m.n); diff != "" {
-			h.violate("C06/unacked-message-bytes-differ", "Get(%d): %s (expected message id %d of %d bytes, got %d bytes; queue ack %d appended %d)", seq, diff, m.id, m.n, len(data), q.AcknowledgedSeq(), app)
+			cl := "C06/unacked-message-bytes-differ"
+			if m.back != 0 {
+				cl += "/appended-after-backward-index-reset"
+			}
+			note := ""
+			if o, ok := h.old[seq]; ok {
+				if id, isMsg := payloadID(data); isMsg && id == o.id && o.id != m.id {
+					note = fmt.Sprintf("; Get returns the message (id %d, %d bytes) that was stored at this sequence BEFORE the index reset", o.id, o.n)
+					if m.back != 0 {
+						cl += "/holds-message-stored-before-reset"
+					}
+				}
+			}
+			h.violate(cl, "Get(%d): %s (expected message id %d of %d bytes, got %d bytes; queue ack %d appended %d%s%s)", seq, diff, m.id, m.n, len(data), q.AcknowledgedSeq(), app, h.backNote(m), note)
 			return
+		}
+		if m.back != 0 {
+			nb++
 		}
 	}
 	h.res.count("unacked_sequences_read_back", n)
+	if nb > 0 {
+		h.res.count("read_back.appended_after_backward_index_reset", nb)
+		if kind == "reopen" {
+			h.res.count("read_back.appended_after_backward_index_reset.after_reopen", nb)
+		}
+	}
+}
+
+func (h *hist) backNote(m msgInfo) string {
+	switch m.back {
+	case 1:
+		return "; the message was appended after SetAppendedSeq moved the append position back onto an earlier index page"
+	case 2:
+		return "; the message was appended after SetAppendedSeq moved the append position back onto an earlier index page and a reopen"
+	}
+	return ""
 }
 
 // ---------------------------------------------------------------------------------------------------------
@@ -410,9 +461,28 @@ func (h *hist) opPut(n int) {
 		return
 	}
 	h.appended++
-	h.msgs[h.appended] = msgInfo{id, n}
+	h.msgs[h.appended] = msgInfo{id, n, h.backMark(h.appended)}
 	h.res.count("op.put", 1)
 	h.after(false)
+}
+
+// backMark says whether a message appended at seq follows a backward index reset across an index page boundary
+// (and counts it: the evidence that the situation was reached).
+func (h *hist) backMark(seq int64) uint8 {
+	if !h.backActive {
+		return 0
+	}
+	if seq/indexItemsPerPage >= h.backFrom {
+		h.backActive = false // the writer is back on the index page it had left
+		h.res.count("appends_rolled_forward_again_after_backward_index_reset", 1)
+		return 0
+	}
+	if h.backReopened {
+		h.res.count("appends_after_backward_index_reset_across_index_page.after_reopen", 1)
+		return 2
+	}
+	h.res.count("appends_after_backward_index_reset_across_index_page.same_process", 1)
+	return 1
 }
 
 func (h *hist) opConsume(g *mGroup) {
@@ -475,7 +545,7 @@ func (h *hist) opConsumeWait(g *mGroup, how string) {
 			return false
 		}
 		h.appended++
-		h.msgs[h.appended] = msgInfo{id, n}
+		h.msgs[h.appended] = msgInfo{id, n, h.backMark(h.appended)}
 		return true
 	}
 	switch how {
@@ -1041,11 +1111,40 @@ func (h *hist) opSetAppended(s int64) {
 
 // applySetAppended: the explicit index reset: appended = queue ack = s, every open group consumed = ack = s.
 func (h *hist) applySetAppended(s int64) {
+	// index page the writer stands on (page of the last append; a fresh/reopened queue: page of appended) and the
+	// page of the next append after the reset
+	writerPage, nextPage := int64(0), (s+1)/indexItemsPerPage
+	if h.appended >= 0 {
+		writerPage = h.appended / indexItemsPerPage
+	}
+	switch {
+	case nextPage < writerPage:
+		h.backActive, h.backReopened, h.backFrom = true, false, writerPage
+		if _, err := os.Stat(filepath.Join(h.dir, "index", fmt.Sprintf("%d.bat", nextPage))); err == nil {
+			h.res.count("index_reset.backward_onto_earlier_index_page.page_present", 1)
+		} else {
+			h.res.count("index_reset.backward_onto_earlier_index_page.page_removed_by_gc", 1)
+		}
+	case nextPage > writerPage:
+		h.backActive = false
+		h.res.count("index_reset.forward_onto_later_index_page", 1)
+	}
 	h.appended, h.qack = s, s
-	for seq := range h.msgs {
+	old := map[int64]msgInfo{}
+	for seq, m := range h.msgs {
 		if seq > s {
+			old[seq] = m
 			delete(h.msgs, seq)
 		}
+	}
+	if len(old) > 0 {
+		// keep what is known about still older lives of the sequences that this reset did not touch
+		for seq, m := range h.old {
+			if _, ok := old[seq]; !ok && seq > s {
+				old[seq] = m
+			}
+		}
+		h.old = old
 	}
 	for _, g := range h.groups {
 		if g.exists {
@@ -1065,6 +1164,9 @@ func (h *hist) opReopen() {
 func (h *hist) reopenAfterClose() {
 	h.lastKind = "reopen"
 	h.sawMark = true
+	if h.backActive {
+		h.backReopened = true
+	}
 	for _, g := range h.groups {
 		g.h = nil
 	}
@@ -1648,7 +1750,7 @@ func (h *hist) genIndexRoll() {
 			return
 		}
 		h.appended++
-		h.msgs[h.appended] = msgInfo{id, n}
+		h.msgs[h.appended] = msgInfo{id, n, h.backMark(h.appended)}
 	}
 	h.res.count("op.put", total)
 	for _, g := range []*mGroup{a, b} {
@@ -1693,16 +1795,31 @@ func (h *hist) genIndexRoll() {
 		return
 	}
 	a, b = h.groups["1"], h.groups["2"]
-	// into the second data page, still in the first index page
-	h.drain(b, perPage-40, true)
-	h.opSync()
-	h.opGC() // data page 0 goes away
-	if h.failed {
-		return
+	if h.idx%2 == 1 {
+		// explicit index resets while the first index page (and the lagging group's unacknowledged messages in it)
+		// still exist: backwards across the index page boundary, forwards again, backwards to just below the boundary
+		h.rollResetsFirstPagePresent(total)
+		if h.failed {
+			return
+		}
+		a, b = h.groups["1"], h.groups["2"]
+		// everybody catches up beyond the first index page: Sync + GC remove data page 0 and index page 0
+		h.drain(a, h.appended, true)
+		h.drain(b, h.appended, true)
+		h.opSync()
+		h.opGC()
+	} else {
+		// into the second data page, still in the first index page
+		h.drain(b, perPage-40, true)
+		h.opSync()
+		h.opGC() // data page 0 goes away
+		if h.failed {
+			return
+		}
+		h.drain(b, perPage+int64(r.Intn(200)), true)
+		h.opSync()
+		h.opGC() // index page 0 goes away
 	}
-	h.drain(b, perPage+int64(r.Intn(200)), true)
-	h.opSync()
-	h.opGC() // index page 0 goes away
 	if h.failed {
 		return
 	}
@@ -1715,6 +1832,157 @@ func (h *hist) genIndexRoll() {
 	h.drain(b, h.appended, true)
 	h.opSync()
 	h.opGC()
+	if h.failed {
+		return
+	}
+	// explicit index resets after GC removed the first index page
+	h.rollResetsFirstPageRemoved(total)
+}
+
+func (h *hist) indexPageExists(p int64) bool {
+	_, err := os.Stat(filepath.Join(h.dir, "index", fmt.Sprintf("%d.bat", p)))
+	return err == nil
+}
+
+// afterResetRound: what a replica does after its index was reset: k appends of 560-720 bytes, every group consumes
+// them (each consumed sequence is read back and compared), one group acknowledges a part, Sync + GC (nothing that is
+// not acknowledged may go away: full read; gc=false: Sync only), the rest is consumed, close + reopen (full read), the lagging group
+// rewinds to its ack and consumes the unacknowledged messages again, a few more appends, consume.
+func (h *hist) afterResetRound(k int, reopenFirst, gc bool) {
+	r := h.rnd
+	if reopenFirst && !h.failed {
+		h.opReopen() // the reset is the last thing the process did before it went down
+	}
+	put := func(n int) {
+		for i := 0; i < n && !h.failed; i++ {
+			h.opPut(560 + r.Intn(161))
+		}
+	}
+	put(k)
+	if h.failed {
+		return
+	}
+	a, b := h.groups["1"], h.groups["2"]
+	half := h.appended - int64(k/2)
+	h.drain(a, half, true)
+	h.drain(b, half, false)
+	if !h.failed && b.consumed > b.ack+1 {
+		h.opAck(b, b.ack+1+r.Int63n(b.consumed-b.ack-1), "valid")
+	}
+	if !h.failed {
+		h.opSync()
+	}
+	if !h.failed && gc {
+		h.opGC()
+	}
+	h.drain(a, h.appended, r.Intn(2) == 0)
+	h.drain(b, h.appended, false)
+	if h.failed {
+		return
+	}
+	h.opReopen()
+	if h.failed {
+		return
+	}
+	a, b = h.groups["1"], h.groups["2"]
+	h.opSetConsumed(b, b.ack) // replay of what is not acknowledged
+	h.drain(b, h.appended, false)
+	put(3 + r.Intn(5))
+	h.drain(a, h.appended, true)
+	h.drain(b, h.appended, r.Intn(2) == 0)
+}
+
+// rollResetsFirstPagePresent (appended > 262144, the first index page still exists, group 2 has unacknowledged
+// messages in it):
+//  1. SetAppendedSeq back to a sequence far inside the first index page, appends, consume + read-back, reopen;
+//  2. SetAppendedSeq forward to a sequence of the second index page, appends, consume + read-back;
+//  3. SetAppendedSeq back to 0-40 sequences below the page boundary, appends that cross the boundary forwards
+//     again, consume + read-back, reopen.
+func (h *hist) rollResetsFirstPagePresent(total int) {
+	const perPage = indexItemsPerPage
+	r := h.rnd
+	if !h.indexPageExists(0) {
+		h.res.inconclusive("indexroll %d: the first index page is already gone before the resets with the page present", h.idx)
+		return
+	}
+	s1 := int64(1000 + r.Intn(perPage-2000))
+	h.opSetAppended(s1)
+	h.afterResetRound(20+r.Intn(30), false, true)
+	if h.failed {
+		return
+	}
+	// forward onto the second index page (a sequence that was appended in the first life of the index)
+	s2 := int64(perPage + 10 + r.Intn(total-perPage-20))
+	h.opSetAppended(s2)
+	h.afterResetRound(6+r.Intn(10), false, false) // Sync but no GC: the first index page stays
+	if h.failed {
+		return
+	}
+	// back to just below the boundary (0: the next append is the first one of the second page again)
+	below := []int64{0, 1, 2, int64(3 + r.Intn(38))}[r.Intn(4)]
+	if h.idx%4 == 1 {
+		below = int64(3 + r.Intn(38)) // the quick tier's history always goes back below the boundary
+	}
+	h.opSetAppended(perPage - 1 - below)
+	if below == 0 {
+		h.res.count("index_reset.onto_last_sequence_of_an_index_page", 1)
+	}
+	h.afterResetRound(int(below)+20+r.Intn(20), false, true)
+}
+
+// rollResetsFirstPageRemoved (every group acknowledged beyond 262144, GC removed the first index page):
+//  1. SetAppendedSeq back into the removed page, appends, consume + read-back, Sync + GC, reopen, replay;
+//  2. forward onto the second page, appends; back onto sequences of the first page that were written in round 1;
+//  3. forward again; back again with close + reopen between the reset and the first append.
+func (h *hist) rollResetsFirstPageRemoved(total int) {
+	const perPage = indexItemsPerPage
+	r := h.rnd
+	if h.indexPageExists(0) || h.fq.Queue().AcknowledgedSeq() < perPage {
+		h.res.inconclusive("indexroll %d: GC did not remove the first index page (queue ack %d) before the resets with the page removed", h.idx, h.fq.Queue().AcknowledgedSeq())
+		return
+	}
+	var s1 int64
+	switch r.Intn(3) {
+	case 0:
+		s1 = perPage - 2 - int64(r.Intn(40)) // just below the boundary: the appends cross it forwards again
+	default:
+		s1 = int64(100 + r.Intn(perPage-1000))
+	}
+	h.opSetAppended(s1)
+	k1 := 20 + r.Intn(30)
+	h.afterResetRound(k1, false, true)
+	if h.failed {
+		return
+	}
+	fwd := func() {
+		s := int64(perPage + 10 + r.Intn(total-perPage-20))
+		if s <= h.appended {
+			s = h.appended + 1 + int64(r.Intn(50))
+		}
+		h.opSetAppended(s)
+		h.afterResetRound(4+r.Intn(8), false, true)
+	}
+	fwd()
+	if h.failed {
+		return
+	}
+	// back onto sequences that hold messages of round 1 (the page exists again, with other messages in these slots)
+	s3 := s1 + int64(r.Intn(k1))
+	if s3 >= perPage-1 {
+		s3 = perPage - 2
+	}
+	h.opSetAppended(s3)
+	h.afterResetRound(10+r.Intn(20), false, true)
+	if h.failed {
+		return
+	}
+	fwd()
+	if h.failed {
+		return
+	}
+	s5 := int64(100 + r.Intn(perPage-1000))
+	h.opSetAppended(s5)
+	h.afterResetRound(10+r.Intn(20), true, true)
 }
 
 // errKind classifies why Get refused a sequence: at or below the queue ack (the queue ack outran a group), or the
